@@ -1500,6 +1500,29 @@ func c16ErrClass(msg string) string {
 	return "other"
 }
 
+// c16RefErrClass classifies what cmd/go says about the program; anything else is "other".
+func c16RefErrClass(msg string) string {
+	switch {
+	case strings.Contains(msg, "import cycle not allowed"):
+		return "cycle"
+	case strings.Contains(msg, "no Go files in"):
+		return "nogo"
+	case strings.Contains(msg, "cannot find package"):
+		return "notfound"
+	}
+	return "other"
+}
+
+// c16ToolchainTrouble: the failure is about the Go installation or its build cache, not the program.
+func c16ToolchainTrouble(msg string) bool {
+	for _, k := range []string{"go-build", "could not import", "is not in std", "cannot find GOROOT", "signal: killed", "no space left", "cannot allocate memory", "resource temporarily unavailable", "failed to initialize build cache"} {
+		if strings.Contains(msg, k) {
+			return true
+		}
+	}
+	return false
+}
+
 func c16Lines(out string) []string {
 	var l []string
 	for _, x := range strings.Split(out, "\n") {
@@ -1753,7 +1776,7 @@ func c16Run(c *c16case) (impl c16evalRes, ref c16out, err error) {
 			}
 		}
 	}
-	{
+	for attempt := 0; ; attempt++ {
 		ctx, cancel := context.WithTimeout(context.Background(), 300*time.Second)
 		arg := "."
 		if c.File {
@@ -1770,10 +1793,19 @@ func c16Run(c *c16case) (impl c16evalRes, ref c16out, err error) {
 		if timedOut {
 			return impl, ref, fmt.Errorf("reference go run timed out in %s", cmd.Dir)
 		}
-		ref.Lines = c16Lines(out.String())
+		if rerr != nil && c16ToolchainTrouble(errb.String()) {
+			// the shared build cache or GOROOT is being modified under us (another job cleaning the
+			// cache): not an outcome of the program; try again, then give up as a harness failure
+			if attempt < 4 {
+				time.Sleep(time.Duration(attempt+1) * time.Second)
+				continue
+			}
+			return impl, ref, fmt.Errorf("reference go run cannot work (toolchain trouble): %s", firstLine(errb.String()))
+		}
+		ref = c16out{Lines: c16Lines(out.String())}
 		if rerr != nil {
 			msg := errb.String()
-			ref.Err, ref.Text = c16ErrClass(msg), firstLine(msg)
+			ref.Err, ref.Text = c16RefErrClass(msg), firstLine(msg)
 			// several kinds of error in one build: not a case this generator means to produce
 			n := 0
 			for _, k := range []string{"import cycle not allowed", "cannot find package", "no Go files in"} {
@@ -1795,6 +1827,7 @@ func c16Run(c *c16case) (impl c16evalRes, ref c16out, err error) {
 		} else if c.Contract != "" && (ref.Err == "other" || ref.Err == "several") {
 			ref = c16out{Err: c.Contract, Text: "contract (the toolchain refuses this layout: " + ref.Text + ")"}
 		}
+		break
 	}
 	return impl, ref, nil
 }
